@@ -11,7 +11,8 @@ CONFIG = dict(
           "7 protocol framings and benign data before/after (quick: seeded stratified sample; thorough: the "
           "full cross product).  The floor is computed from the generator's labels *confirmed by the "
           "reference VM's log* (the VM really resolved / called that entry) and compared with the public "
-          "safety check's severity.  A case is one distinct byte string; non-trivial = reference VM and "
+          "safety check's severity - on a fresh parse and (sampled) on an already analysed object edited into the "
+          "same opcode list through insert/delete/slice or the injection helpers.  A case is one distinct byte string; non-trivial = reference VM and "
           "fickling both accept it and its floor is above LIKELY_SAFE."),
     assumptions=[
         "stdlib / dangerous / non-stdlib labels are fixed by the generator's vocabulary, not by fickling",
@@ -23,7 +24,7 @@ CONFIG = dict(
     min_nontrivial={"quick": 5000, "thorough": 100000},
     nshards={"quick": 16, "thorough": 16},
     timeout={"quick": 900, "thorough": 5400},
-    required_counters=("floors_checked",),
+    required_counters=("floors_checked", "edited_objects_checked", "helper_edits_checked"),
 )
 
 RANK = {"LIKELY_SAFE": 0, "POSSIBLY_UNSAFE": 1, "SUSPICIOUS": 2, "LIKELY_UNSAFE": 3,
@@ -195,12 +196,106 @@ def check(ctx, f, analysis, label, data):
     agg.count("floors_checked")
     agg.hist("floor_reasons", reason.split(":")[0] + ":" + reason.split(":")[1])
     agg.hist("verdicts", sev)
+    if RANK[sev] >= rank and (not label.startswith(("import-", "call-")) or int(ch[:2], 16) % 4 == 0):
+        edited_object(ctx, f, analysis, label, data, rank, reason, sev)
     if RANK[sev] < rank:
         want = [k for k, v in RANK.items() if v == rank][0]
         agg.violation(reason, f"verdict {sev} is below the floor {want} required because the VM would "
                               f"{'import' if reason.startswith('import') else 'call'} this entry",
                       {"label": label, "hex": data.hex(), "verdict": sev, "floor": want,
                        "vm_events": [str(e)[:160] for e in vm.log.events[:6]]})
+
+
+WARM = (b"K\x01.", b"ccollections\nOrderedDict\n)R.", b"\x80\x02]q\x00(K\x01K\x02e.")
+
+
+def edited_object(ctx, f, analysis, label, data, rank, reason, fresh_sev):
+    """The same opcode list reached by editing an object that has already been analysed: the floor holds
+    for the pickle the object now *is*, whatever it was when it was first looked at."""
+    agg = ctx.agg
+    target = list(f.Pickled.load(data))
+    for wi, (base, warm, how) in enumerate(((WARM[0], "check", "insert"), (WARM[1], "props", "slice"),
+                                            (WARM[2], "check+ast", "insert"), (data, "check", "identity-slice"))):
+        try:
+            p = f.Pickled.load(base)
+            if "check" in warm:
+                analysis.check_safety(p)
+            if "props" in warm:
+                p.properties.imports, p.has_call, p.non_standard_imports
+            if "ast" in warm:
+                p.ast
+            n0 = len(p)
+            if how == "insert":
+                for i, op in enumerate(target):
+                    p.insert(i, op)
+                for _ in range(n0):
+                    del p[len(p) - 1]
+            elif how == "slice":
+                p[0:n0] = target
+            else:
+                p[0:n0] = list(p)
+            if p.dumps() != f.Pickled(target).dumps():
+                agg.count("edited_object_not_equal(C14)")
+                continue
+            sev = analysis.check_safety(p).severity.name
+        except Exception as e:
+            agg.hist("edited_object_raised", type(e).__name__)
+            continue
+        agg.count("edited_objects_checked")
+        if RANK[sev] < rank:
+            want = [k for k, v in RANK.items() if v == rank][0]
+            agg.violation("floor-lost-on-edited-object",
+                          f"an already analysed object edited into this pickle gets {sev} (fresh parse: {fresh_sev}); "
+                          f"floor is {want} ({reason})",
+                          {"label": label, "hex": data.hex(), "verdict": sev, "floor": want, "warm": warm, "edit": how,
+                           "base_hex": base.hex()})
+            return
+
+
+HELPERS = [
+    ("insert_python_exec", lambda p: p.insert_python_exec("x = 1"), 5),
+    ("insert_python_exec-last", lambda p: p.insert_python_exec("x = 1", run_first=False), 5),
+    ("insert_python_eval", lambda p: p.insert_python_eval("1+1", use_output_as_unpickle_result=True), 5),
+    ("insert_python-os", lambda p: p.insert_python("id", module="os", attr="system"), 4),
+    ("insert_python-nonstd", lambda p: p.insert_python(1, module="vp_sink", attr="hit", run_first=False), 3),
+    ("append_python-os", lambda p: p.append_python("id", module="os", attr="system"), 4),
+    ("fn-on-unpickled", lambda p: p.insert_function_call_on_unpickled_object("def f(o):\n    return o\n"), 5),
+    ("fn-on-unpickled-compiled",
+     lambda p: p.insert_function_call_on_unpickled_object("def f(o):\n    return o\n", compile_code=True), 5),
+]
+
+
+def helper_edits(ctx, f, analysis):
+    """warm -> injection helper -> check, on benign bases (every protocol of a few values)."""
+    import pickle
+    agg = ctx.agg
+    rng = asm.rng_for(ctx.seed, "c04-helpers")
+    bases = [pickle.dumps(v, pr) for pr in range(6) for v in ([1, 2], {"a": (1, 2.5)}, "txt")]
+    bases += [b"ccollections\nOrderedDict\n)R."]
+    for bi, base in enumerate(bases):
+        for hname, fn, rank in HELPERS:
+            for warm in ("none", "check", "props", "check-twice"):
+                if not ctx.mine(base + hname.encode() + warm.encode()):
+                    continue
+                try:
+                    p = f.Pickled.load(base)
+                    if warm.startswith("check"):
+                        analysis.check_safety(p)
+                    if warm == "check-twice":
+                        analysis.check_safety(p)
+                    if warm == "props":
+                        p.properties.calls, p.has_import
+                    fn(p)
+                    sev = analysis.check_safety(p).severity.name
+                except Exception as e:
+                    agg.hist("helper_edit_raised", f"{hname}:{type(e).__name__}")
+                    continue
+                agg.count("helper_edits_checked")
+                if RANK[sev] < rank:
+                    want = [k for k, v in RANK.items() if v == rank][0]
+                    agg.violation("floor-lost-on-edited-object",
+                                  f"{hname} on an object analysed before ({warm}) is rated {sev}; floor is {want}",
+                                  {"label": f"helper-{hname}-{warm}", "hex": base.hex(), "verdict": sev, "floor": want})
 
 
 def setup():
@@ -215,6 +310,7 @@ def run_shard(ctx):
     ctx.agg.notes.append({"registered_analyses": [type(a).__name__ for a in analysis.Analysis.ALL]})
     for label, data in programs(ctx):
         check(ctx, f, analysis, label, data)
+    helper_edits(ctx, f, analysis)
 
 
 def replay(ctx, payload):
